@@ -24,6 +24,7 @@ node are kept from the original for diagnostics and type look-ups.
 """
 from __future__ import annotations
 
+from .core import acopy
 import ast
 import copy
 from typing import List, Optional
@@ -100,7 +101,7 @@ class _Expr(ast.NodeTransformer):
         if len(node.ops) == 2 and isinstance(node.comparators[0], (ast.Name, ast.Constant)):
             mid = node.comparators[0]
             a = ast.copy_location(ast.Compare(left=node.left, ops=[node.ops[0]], comparators=[mid]), node)
-            b = ast.copy_location(ast.Compare(left=copy.deepcopy(mid), ops=[node.ops[1]], comparators=[node.comparators[1]]), node)
+            b = ast.copy_location(ast.Compare(left=acopy(mid), ops=[node.ops[1]], comparators=[node.comparators[1]]), node)
             return ast.copy_location(ast.BoolOp(op=ast.And(), values=[a, b]), node)
         return node
 
@@ -156,8 +157,8 @@ def _canon_block(body: List[ast.stmt], in_function: bool) -> List[ast.stmt]:
         # K5
         if in_function and isinstance(s, ast.Assign) and len(s.targets) == 1 and isinstance(s.value, ast.IfExp):
             e = s.value
-            a = ast.copy_location(ast.Assign(targets=[copy.deepcopy(s.targets[0])], value=e.body, lineno=s.lineno), s)
-            b = ast.copy_location(ast.Assign(targets=[copy.deepcopy(s.targets[0])], value=e.orelse, lineno=s.lineno), s)
+            a = ast.copy_location(ast.Assign(targets=[acopy(s.targets[0])], value=e.body, lineno=s.lineno), s)
+            b = ast.copy_location(ast.Assign(targets=[acopy(s.targets[0])], value=e.orelse, lineno=s.lineno), s)
             new = ast.copy_location(ast.If(test=_demorgan(e.test), body=_canon_block([a], True), orelse=_canon_block([b], True)), s)
             out.append(new)
             continue
